@@ -1,4 +1,204 @@
-import Spec.Online
-/-! # C04 (theorems follow) -/
+import Lemmas.Online.Loop
+/-!
+# C04 — a failing migration never leaves the version table out of step
+
+All theorems are about `Model.Online.runFinal ap c pre (oracle plan k pos) db`: what a fresh
+connection sees after the `env.py` shape was run on database `db`, where migrations
+`0 … k-1` of `plan` ran completely and migration `k` raised at atom position `pos`
+(before/between/after each statement, around autocommit blocks, inside or after the version
+update).  They hold for **every** state type `σ`, statement payload `α` and statement
+semantics `ap`, every plan length, every `k`, every `pos`.
+
+`PerMigRegime c`  = not external ∧ (`transactional_ddl` false ∨ `transaction_per_migration`)
+`SingleRegime c`  = external transaction ∨ (`transactional_ddl` ∧ ¬`transaction_per_migration`)
+(the two regimes cover all four `(transactional_ddl, transaction_per_migration)` settings).
+-/
 namespace C04
+open Model.Online Spec.Online
+
+variable {α σ ρ : Type} (ap : α → σ → σ)
+
+/-! ### plumbing: from the `env.py` shape to the loop -/
+
+/-- the state in which the loop starts -/
+def loopStart (c : Cfg) (pre : List (Stmt α)) (db : σ) : St σ :=
+  execAll ap c.mode pre (autobegin c.mode (startSt c db))
+
+theorem runMigrations_eq (c : Cfg) (pre : List (Stmt α)) (progs : List (List (Atom α))) (db : σ) :
+    runMigrations ap c pre progs (startSt c db) = runLoop ap c progs (loopStart ap c pre db) := by
+  unfold runMigrations ensureVT loopStart execAll
+  cases pre with
+  | nil => simp
+  | cons s r => simp
+
+theorem loopStart_auto (c : Cfg) (pre : List (Stmt α)) (db : σ) : (loopStart ap c pre db).auto = none := by
+  simp [loopStart]
+
+theorem loopStart_working (c : Cfg) (pre : List (Stmt α)) (db : σ) :
+    (loopStart ap c pre db).working = applyAll ap (pre.map (·.act)) db := by
+  simp [loopStart]
+
+theorem loopStart_txn (c : Cfg) (h : PerMigRegime c) (pre : List (Stmt α)) (db : σ) : (loopStart ap c pre db).txn = false := by
+  simp [loopStart, startSt, begin_outer_perMig c h, initSt]
+
+theorem loopStart_inv (c : Cfg) (pre : List (Stmt α)) (db : σ) (Cp Wp : σ → Prop) (hWC : ∀ x, Wp x → Cp x)
+    (hp : ∀ s ∈ pre, ∀ x, Wp x → Wp (ap s.act x)) (hc : Cp db) (hw : Wp db) :
+    Cp (loopStart ap c pre db).committed := by
+  have := runAtoms_inv ap c.mode Cp Wp hWC (pre.map .stmt) (autobegin c.mode (startSt c db))
+    (fun s hs => by
+      simp only [List.mem_map] at hs
+      obtain ⟨s', hs', e⟩ := hs
+      cases e; exact hp _ hs')
+    (by simp [hc])
+    (by simp [hw])
+  rw [runAtoms_stmts] at this
+  exact this.1
+
+theorem loopStart_committed_transactional (c : Cfg) (hm : c.mode = .transactional) (pre : List (Stmt α)) (db : σ) :
+    (loopStart ap c pre db).committed = db := by
+  have := runAtoms_transactional_noAuto ap (pre.map .stmt) (autobegin c.mode (startSt c db))
+    (by simp [noAuto, isAutoAtom]) (by simp)
+  rw [← hm, runAtoms_stmts] at this
+  simpa [loopStart, Outcome.st] using this.1
+
+/-- after a failure, the observation is the `committed` component the loop ended with -/
+theorem final_eq (c : Cfg) (pre : List (Stmt α)) (plan : List (Mig α)) (k pos : Nat) (m : Mig α) (db : σ)
+    (hk : plan[k]? = some m) :
+    runFinal ap c pre (oracle plan k pos) db =
+      (runLoop ap c ((plan.take k).map migAtoms ++ [(migAtoms m).take pos ++ [.raise]]) (loopStart ap c pre db)).st.committed := by
+  rw [runFinal_of_raised, runMigrations_eq, oracle_eq plan k pos m hk]
+  rw [runMigrations_eq, oracle_eq plan k pos m hk]
+  exact runLoop_raises ap c _ _ _
+
+/-- the run raises: the exception reaches the caller (it is never swallowed) -/
+theorem failure_propagates (c : Cfg) (pre : List (Stmt α)) (plan : List (Mig α)) (k pos : Nat) (m : Mig α) (db : σ)
+    (hk : plan[k]? = some m) : runRaised ap c pre (oracle plan k pos) db = true := by
+  unfold runRaised
+  have := runLoop_raises ap c ((plan.take k).map migAtoms) ((migAtoms m).take pos) (loopStart ap c pre db)
+  rw [runMigrations_eq, oracle_eq plan k pos m hk]
+  cases h : runLoop ap c ((plan.take k).map migAtoms ++ [(migAtoms m).take pos ++ [.raise]]) (loopStart ap c pre db) with
+  | ok s => rw [h] at this; simp [Outcome.isRaised] at this
+  | raised s => rfl
+
+theorem take_eq_nil_iff_zero (plan : List (Mig α)) (k : Nat) (m : Mig α) (hk : plan[k]? = some m) :
+    plan.take k = [] ↔ k = 0 := by
+  constructor
+  · intro h
+    cases plan with
+    | nil => simp at hk
+    | cons a r => cases k with
+      | zero => rfl
+      | succ n => simp at h
+  · intro h; subst h; simp
+
+/-! ### the property -/
+
+/-- **Transactional DDL, one enclosing transaction** (also: the caller's own transaction):
+    after the failure, schema, data and version table are exactly as before the command.
+    Scope: no `autocommit_block` was entered before the failure (such a block commits the
+    enclosing transaction by design, see `single_txn_autocommit_block_commits`). -/
+theorem single_txn (c : Cfg) (pre : List (Stmt α)) (plan : List (Mig α)) (k pos : Nat) (m : Mig α) (db : σ)
+    (hmode : c.mode = .transactional) (hreg : SingleRegime c) (hk : plan[k]? = some m)
+    (hna : ∀ m' ∈ plan.take k, noAuto (migAtoms m') = true) (hnaf : noAuto ((migAtoms m).take pos) = true) :
+    runFinal ap c pre (oracle plan k pos) db = db := by
+  rw [final_eq ap c pre plan k pos m db hk, runLoop_single_exact ap c hmode hreg _ _ _ (loopStart_auto ap c pre db),
+    loopStart_committed_transactional ap c hmode]
+  intro p hp
+  rcases List.mem_append.mp hp with h | h
+  · obtain ⟨m', hm', e⟩ := List.mem_map.mp h
+    rw [← e]; exact hna m' hm'
+  · simp only [List.mem_singleton] at h
+    subst h
+    simp only [noAuto, List.all_append, Bool.and_eq_true] at hnaf ⊢
+    exact ⟨hnaf, by simp [isAutoAtom]⟩
+
+/-- **Transactional DDL, transaction per migration**: exactly the completed migrations are
+    applied and recorded, the failed one leaves no trace (if the very first migration fails
+    even the creation of the version table is rolled back).  Scope: the failed migration
+    entered no `autocommit_block` before the failure (earlier migrations may have). -/
+theorem per_migration (c : Cfg) (pre : List (Stmt α)) (plan : List (Mig α)) (k pos : Nat) (m : Mig α) (db : σ)
+    (hmode : c.mode = .transactional) (hreg : PerMigRegime c) (hk : plan[k]? = some m)
+    (hnaf : noAuto ((migAtoms m).take pos) = true) :
+    runFinal ap c pre (oracle plan k pos) db = if k = 0 then db else stateAt ap pre plan k db := by
+  rw [final_eq ap c pre plan k pos m db hk,
+    runLoop_perMig_exact ap c hmode hreg m pos hnaf _ _ (loopStart_auto ap c pre db) (loopStart_txn ap c hreg pre db),
+    loopStart_committed_transactional ap c hmode, loopStart_working]
+  simp only [take_eq_nil_iff_zero plan k m hk, stateAt, applied]
+
+/-- **Per-migration regime, any backend mode, autocommit blocks allowed**: the version
+    rows (any observation `π` that migration bodies and the housekeeping do not touch) are
+    exactly those of the completed migrations. -/
+theorem recorded_exactly_completed (π : σ → ρ) (c : Cfg) (pre : List (Stmt α)) (plan : List (Mig α)) (k pos : Nat)
+    (m : Mig α) (db : σ) (hreg : PerMigRegime c) (hk : plan[k]? = some m)
+    (hpre : ∀ s ∈ pre, ∀ x, π (ap s.act x) = π x)
+    (hbody : ∀ s, Atom.stmt s ∈ bodyAtoms m.segs → ∀ x, π (ap s.act x) = π x) :
+    π (runFinal ap c pre (oracle plan k pos) db) = π (stateAt ap pre plan k db) := by
+  rw [final_eq ap c pre plan k pos m db hk,
+    runLoop_perMig_proj ap π c hreg m pos hbody _ _ (loopStart_auto ap c pre db) (loopStart_txn ap c hreg pre db),
+    loopStart_working]
+  · rfl
+  · rw [loopStart_working, applyAll_preserve ap π]
+    · exact loopStart_inv ap c pre db (fun x => π x = π db) (fun x => π x = π db) (fun _ h => h)
+        (fun s hs x hx => by rw [hpre s hs x]; exact hx) rfl rfl
+    · intro a ha x
+      obtain ⟨s, hs, e⟩ := List.mem_map.mp ha
+      rw [← e]; exact hpre s hs x
+
+/-- **Without transactional DDL** (`impl.transactional_ddl` false; every backend mode, with
+    or without `transaction_per_migration`): the table still records exactly the completed
+    migrations. -/
+theorem nontransactional (π : σ → ρ) (c : Cfg) (pre : List (Stmt α)) (plan : List (Mig α)) (k pos : Nat)
+    (m : Mig α) (db : σ) (htddl : c.tddl = false) (hext : c.external = false) (hk : plan[k]? = some m)
+    (hpre : ∀ s ∈ pre, ∀ x, π (ap s.act x) = π x)
+    (hbody : ∀ s, Atom.stmt s ∈ bodyAtoms m.segs → ∀ x, π (ap s.act x) = π x) :
+    π (runFinal ap c pre (oracle plan k pos) db) = π (stateAt ap pre plan k db) :=
+  recorded_exactly_completed ap π c pre plan k pos m db ⟨hext, Or.inl htddl⟩ hk hpre hbody
+
+/-- **Every configuration** (all backend modes, all four settings, external transaction,
+    autocommit blocks, flag/backend mismatches): the version rows after the failure are
+    those of a migration boundary `j ≤ k` — recorded = a prefix of the migrations whose
+    function returned (those whose transaction committed), never a partial version update. -/
+theorem rows_at_boundary (π : σ → ρ) (c : Cfg) (pre : List (Stmt α)) (plan : List (Mig α)) (k pos : Nat)
+    (m : Mig α) (db : σ) (hk : plan[k]? = some m)
+    (hcong : ∀ a x y, π x = π y → π (ap a x) = π (ap a y))
+    (hpre : ∀ s ∈ pre, ∀ x, π (ap s.act x) = π x)
+    (hbody : ∀ m' ∈ plan.take k ++ [m], ∀ s, Atom.stmt s ∈ bodyAtoms m'.segs → ∀ x, π (ap s.act x) = π x) :
+    ∃ j, j ≤ k ∧ π (runFinal ap c pre (oracle plan k pos) db) = π (stateAt ap pre plan j db) := by
+  rw [final_eq ap c pre plan k pos m db hk]
+  have hbase : π (applyAll ap (pre.map (·.act)) db) = π db := by
+    rw [applyAll_preserve ap π]
+    intro a ha x
+    obtain ⟨s, hs, e⟩ := List.mem_map.mp ha
+    rw [← e]; exact hpre s hs x
+  have := runLoop_boundary ap π c hcong m pos (plan.take k) hbody (fun y => y = π (applyAll ap (pre.map (·.act)) db))
+    (applyAll ap (pre.map (·.act)) db) (loopStart ap c pre db) (loopStart_auto ap c pre db)
+    (by
+      rw [hbase]
+      exact loopStart_inv ap c pre db (fun x => π x = π db) (fun x => π x = π db) (fun _ h => h)
+        (fun s hs x hx => by rw [hpre s hs x]; exact hx) rfl rfl)
+    (by rw [loopStart_working]) rfl
+  rcases this with h | ⟨j, hj, h⟩
+  · exact ⟨0, Nat.zero_le _, by rw [h]; simp [stateAt, applied, planActs, applyAll]⟩
+  · have hjk : j ≤ k := by
+      have := List.length_take_le k plan
+      omega
+    refine ⟨j, hjk, ?_⟩
+    rw [h, List.take_take, Nat.min_eq_left hjk]
+    rfl
+
+/-- **The failed revision is never named (upgrade) nor dropped (downgrade)**: whatever
+    "the version table names revision r" means (`names`, e.g. membership of `r` in the
+    ancestor closure of the rows), if at every migration boundary up to the failed step the
+    table names the failed revision iff `e` (upgrade: `e = False`, it is not applied yet;
+    downgrade: `e = True`, it is still applied), then so it does after the failure. -/
+theorem never_names_failed (π : σ → ρ) (names : ρ → Nat → Prop) (e : Prop) (c : Cfg) (pre : List (Stmt α))
+    (plan : List (Mig α)) (k pos : Nat) (m : Mig α) (db : σ) (hk : plan[k]? = some m)
+    (hcong : ∀ a x y, π x = π y → π (ap a x) = π (ap a y))
+    (hpre : ∀ s ∈ pre, ∀ x, π (ap s.act x) = π x)
+    (hbody : ∀ m' ∈ plan.take k ++ [m], ∀ s, Atom.stmt s ∈ bodyAtoms m'.segs → ∀ x, π (ap s.act x) = π x)
+    (hb : ∀ j, j ≤ k → (names (π (stateAt ap pre plan j db)) m.rev ↔ e)) :
+    names (π (runFinal ap c pre (oracle plan k pos) db)) m.rev ↔ e := by
+  obtain ⟨j, hj, h⟩ := rows_at_boundary ap π c pre plan k pos m db hk hcong hpre hbody
+  rw [h]; exact hb j hj
+
 end C04
